@@ -162,9 +162,21 @@ def harness(cfg, ns):
                     pass
             return gk_vals[key]
 
+        import inspect as _inspect
+        REAL_LOADERS = dict(from_csv=co.Continuum.from_csv, from_rttm=co.Continuum.from_rttm)
+
+        def _non_default(fn, options):
+            """options the real loader would apply anyway (value == its own default) change nothing: dropped"""
+            try:
+                params = _inspect.signature(fn).parameters
+            except (TypeError, ValueError):
+                return options
+            return {k: v for k, v in options.items() if not (k in params and params[k].default is not _inspect.Parameter.empty and params[k].default == v)}
+
         class FakeCont:
             @staticmethod
             def from_csv(path, delimiter=",", **options):
+                options = _non_default(REAL_LOADERS["from_csv"], options)
                 # any further reader option makes the command line read the file differently from the API call of the statement
                 # (Continuum.from_csv(path, delimiter=separator)): recorded, and reported through the loading obligation
                 log["load"].append(("csv", path, delimiter) + ((tuple(sorted(options.items())),) if options else ()))
@@ -173,6 +185,7 @@ def harness(cfg, ns):
 
             @staticmethod
             def from_rttm(path, **options):
+                options = _non_default(REAL_LOADERS["from_rttm"], options)
                 log["load"].append(("rttm", path) + ((tuple(sorted(options.items())),) if options else ()))
                 log["events"].append("load")
                 return Cont(path)
